@@ -57,6 +57,7 @@ func (sc JoinScenario) divider() int64 {
 }
 
 type outRec struct {
+	Call      int64 // stamp taken before the receive was called
 	Recv      int64 // receive stamp (ns since T0), taken after the receive
 	Data      []int // contents at delivery
 	Full      []int // s[:cap(s)] at delivery
@@ -313,6 +314,7 @@ recvLoop:
 		timer.Reset(maxWait)
 		var s []int
 		var ok bool
+		callAt := now()
 		select {
 		case s, ok = <-sys.out:
 		case <-timer.C:
@@ -332,7 +334,7 @@ recvLoop:
 				tr.AfterStop = fmt.Sprintf("%d slices were received after Stop() had returned (output buffer capacity is 1)", tr.afterStopSlices)
 			}
 		}
-		rec := outRec{Recv: now(), Data: slices.Clone(s), Full: slices.Clone(s[:cap(s)]), RelStart: -1, slice: s}
+		rec := outRec{Call: callAt, Recv: now(), Data: slices.Clone(s), Full: slices.Clone(s[:cap(s)]), RelStart: -1, slice: s}
 		rec.Ptr, rec.Cap = sliceID(s)
 		tr.Out = append(tr.Out, rec)
 		o := &tr.Out[len(tr.Out)-1]
@@ -569,6 +571,9 @@ func judgeJoin(sc JoinScenario, tr *JoinTrace, inBubble bool) (fs []joinFinding,
 			i++
 		}
 		add("C03", "concatenation", "concatenation of the output slices differs from the input stream at position %d (out len %d, in len %d): out=%v in=%v", i, len(cat), len(tr.InData), cat[max(0, i-2):min(len(cat), i+4)], tr.InData[max(0, i-2):min(len(tr.InData), i+4)])
+		if isUnite {
+			judgeUniteByValue(sc, tr, add)
+		}
 		return // positional oracles below need the equality
 	}
 	// map positions to input slices
@@ -642,6 +647,17 @@ func judgeJoin(sc JoinScenario, tr *JoinTrace, inBubble bool) (fs []joinFinding,
 							what = "delivery of the previous slice"
 						}
 					}
+					// The previous slice cannot have entered the output buffer (capacity C) before
+					// the consumer had started to receive the slice C places before it; the
+					// timeout runs from the completion of that send at the earliest.
+					outCap := 1 + sc.InCap
+					if sc.Disc == "v1join" {
+						outCap = 1
+					}
+					if j := i - 1 - outCap; j >= 0 && tr.Out[j].Call > ref {
+						ref = tr.Out[j].Call
+						what = fmt.Sprintf("the moment the consumer began to receive slice #%d (which made room in the output buffer of capacity %d for slice #%d)", j, outCap, i-1)
+					}
 				}
 				gap := o.Recv - ref
 				if gap-T < st.MinTimeoutGap {
@@ -698,6 +714,55 @@ func judgeJoin(sc JoinScenario, tr *JoinTrace, inBubble bool) (fs []joinFinding,
 		}
 	}
 	return
+}
+
+// judgeUniteByValue is C11 for traces whose concatenation differs from the input stream
+// (positions no longer correspond): elements are unique unless slices were re-sent, so every
+// element names its input slice. No input slice may be split, and an input slice of at least
+// JoinSize elements must be an output of its own that comes after everything written before it.
+func judgeUniteByValue(sc JoinScenario, tr *JoinTrace, add func(prop, key, format string, a ...any)) {
+	for _, st := range sc.Steps {
+		if st.Resend {
+			return
+		}
+	}
+	owner := map[int]int{} // element value -> input slice index
+	for k, in := range tr.In {
+		for p := in.A; p < in.B; p++ {
+			owner[tr.InData[p]] = k
+		}
+	}
+	where := map[int]int{} // input slice -> output slice holding (the first of) its elements
+	for oi, o := range tr.Out {
+		for _, v := range o.Data {
+			k, ok := owner[v]
+			if !ok {
+				continue
+			}
+			if prev, seen := where[k]; seen && prev != oi {
+				add("C11", "split", "input slice #%d is split across output slices #%d and #%d (JoinSize %d)", k, prev, oi, sc.J)
+				return
+			}
+			where[k] = oi
+		}
+	}
+	for k, in := range tr.In {
+		n := in.B - in.A
+		oi, ok := where[k]
+		if n < int(sc.J) || !ok {
+			continue
+		}
+		if len(tr.Out[oi].Data) != n {
+			add("C11", "oversize-not-alone", "input slice #%d of %d >= JoinSize %d elements was not delivered as an output slice of its own (it is inside output #%d of %d elements)", k, n, sc.J, oi, len(tr.Out[oi].Data))
+			return
+		}
+		for e := 0; e < k; e++ {
+			if oe, ok := where[e]; ok && oe > oi {
+				add("C11", "oversize-overtakes", "input slice #%d of %d >= JoinSize %d elements was delivered (output #%d) before input slice #%d that was written earlier (output #%d)", k, n, sc.J, oi, e, oe)
+				return
+			}
+		}
+	}
 }
 
 // ---------------------------------------------------------------------------------------
